@@ -318,6 +318,39 @@ func c10Scenarios(tier string) []*world.Scenario {
 	out = append(out, c10Scenario("set-mget-del-get",
 		[][]Req{{set(a1, "m"), mget([]string{"m", ""}, a1, a2), func() Req { r := DelReq(a1); r.Expect = []byte(":1\r\n"); return r }(), func() Req { r := GetReq(a1); r.Expect = []byte("$-1\r\n"); return r }()}},
 		[][]rd{{{"set", []string{a1}, "m"}, {"mget", []string{a1, a2}, ""}, {"del", []string{a1}, ""}, {"get", []string{a1}, ""}}}, b))
+	// cold backend connections that start with an AUTH handshake: further requests are routed while the handshake reply
+	// is still outstanding (the connection must be kept, not replaced: a second connection would break the order)
+	for _, one := range []bool{false, true} {
+		sc := c10Scenario(fmt.Sprintf("password/set-get-set-get/one=%v", one),
+			[][]Req{{set(a0, "x0"), get(a0, "x0"), set(a1, "x1"), get(a1, "x1")}, {set(a3, "y0"), get(a3, "y0")}},
+			[][]rd{{{"set", []string{a0}, "x0"}, {"get", []string{a0}, ""}, {"set", []string{a1}, "x1"}, {"get", []string{a1}, ""}}, {{"set", []string{a3}, "y0"}, {"get", []string{a3}, ""}}}, 3)
+		sc.Password = "secret"
+		sc.Family = "handshake"
+		if one {
+			for ci := range sc.Clients {
+				var all []byte
+				for _, ch := range sc.Clients[ci].Chunks {
+					all = append(all, ch.Data...)
+				}
+				sc.Clients[ci].Chunks = []world.Chunk{{Data: all}}
+			}
+		}
+		base := sc.Check
+		sc.Check = func(w *world.World) []world.Violation {
+			vs := base(w)
+			n := 0
+			for _, bc := range w.BConns {
+				if bc.Addr == AddrA {
+					n++
+				}
+			}
+			if n > 1 && len(vs) == 0 {
+				vs = append(vs, world.Violation{Sig: "per-node-order-violated", Msg: fmt.Sprintf("with one connection per node configured the proxy opened %d connections to %s while none was lost; requests of one client can overtake each other across them", n, AddrA)})
+			}
+			return vs
+		}
+		out = append(out, sc)
+	}
 	// another client is closed for invalid input in the same loop batch in which its valid first request was routed
 	{
 		garbage := append(world.Cmd("get", a2), []byte("GARBAGE\r\n")...)
@@ -520,7 +553,7 @@ func init() {
 		Scenarios: c09Scenarios, BudgetQuick: 90, BudgetThorough: 1200,
 		Assumptions: []string{"'promptly' is decided in logical time: before the event loop next blocks", "'not starved' is decided in logical form: bounded intake per loop round from a sender that never pauses (the poller, which serves completed replies, is reached again after <= 4 read buffers)", "simulated kernel; stateless node model"}})
 	register(&Check{ID: "C10", Level: "model_checking",
-		Rule:      "1-3 clients whose pipelines (SET/GET/MSET/MGET/DEL on keys of one node, incl. two fragments of one request on the same node) all land on node A's single connection; a slow node whose backlog is drained in pieces; another client closed for invalid input in the loop batch that routed its valid request; stateful node model; every interleaving within the bound; oracle: per (client,node) command order = send order, and reads observe the preceding writes; non-trivial = >= 1 deviation; distinct = observable outcomes",
+		Rule:      "1-3 clients whose pipelines (SET/GET/MSET/MGET/DEL on keys of one node, incl. two fragments of one request on the same node) all land on node A's single connection; a slow node whose backlog is drained in pieces; another client closed for invalid input in the loop batch that routed its valid request; stateful node model; every interleaving within the bound; oracle: per (client,node) command order = send order, and reads observe the preceding writes; non-trivial = >= 1 deviation; distinct = observable outcomes; plus: password configured, so that further requests are routed while the AUTH reply of the cold connection is still outstanding",
 		Scenarios: c10Scenarios, BudgetQuick: 90, BudgetThorough: 1200,
 		Assumptions: []string{"server_connections = 1 as the property states", "replication inside a replica set is instantaneous in the node model"}})
 	register(&Check{ID: "C07", Level: "model_checking",
